@@ -39,7 +39,6 @@ var (
 	regCleanLogs          = util.ToRegexRepl([]string{
 		// Clean apparmor log file
 		`.*apparmor="`, `apparmor="`,
-		`(peer_|)pid=[0-9]*\s`, " ",
 		`\x1d`, " ",
 
 		// Remove basic rules from abstractions/base
@@ -50,6 +49,11 @@ var (
 		`(?m)^.*/usr/share/zoneinfo[^/]?/.*$`, ``,
 		`(?m)^.*/dev/(null|zero|full|log).*$`, ``,
 		`(?m)^.*/dev/(u|)random.*$`, ``,
+	})
+	// The pid fields are removed before the hex encoded values are decoded: a decoded
+	// name can hold any text, "pid=12 " included.
+	regCleanPid = util.ToRegexRepl([]string{
+		`(peer_|)pid=[0-9]*\s`, " ",
 	})
 	regResolveLogs = util.ToRegexRepl([]string{
 		// Resolve user variables
